@@ -223,6 +223,7 @@ package files
 //@   storeassert [C05 C04] S2-only-directories-end-in-slash: implies(val != nil && key != "/" && strings.HasSuffix(key, "/"), isDirType(val.Type))
 //@   storeassert [C05] S3-no-silent-overwrite: key == "/" || !mapHas(m, key) || (m[key] != nil && m[key].Type == "implicit dir" && val != nil && isDirType(val.Type))
 //@   storeassert [C05] S4-no-file-directory-twin: key == "/" || !mapHas(m, twinKey(key))
+//@   storeassert [C01] S5-a-symlink-found-on-disk-keeps-its-literal-target: implies(within("addGlobbedFiles") && val != nil && val.Type == "symlink" && lastOK("os.Readlink"), val.Source == lastStr("os.Readlink"))
 //@   loop 0 (contentMap map[string]*Content)
 //@     invariant [C11 C12 C07] plan-map-ok: planMapOK(contentMap, !mtime.IsZero())
 //@     invariant [C11 C12] map-fresh: fresh(contentMap)
